@@ -12,7 +12,8 @@ func init() {
 // first (newest first) and exactly the remainder is requested on top of the
 // cloud group's desired size at call time.
 // shape: [nodes, failure budget, class menu, mode (0 utilisation scale-up, 1 below-minimum recovery), prior scan,
-//         effect of the taints on the nodes free (0/1), up to K newest nodes unreachable at the API server (then nodes are fixed: N-1 tainted, newest first, and one untainted)]
+//
+//	effect of the taints on the nodes free (0/1), up to K newest nodes unreachable at the API server (then nodes are fixed: N-1 tainted, newest first, and one untainted)]
 func VerifHarness_C07() {
 	N, F, menu, mode := verifShape(0), verifShape(1), verifShape(2), verifShape(3)
 	w := newWorld(F)
@@ -54,6 +55,10 @@ func VerifHarness_C07() {
 	w.build()
 	if verifShape(4) == 1 {
 		w.priorScan(g)
+	}
+	if verifShape(7) == 1 {
+		// the API server goes away in the middle of the scan: after a symbolic number of node calls all of them time out
+		w.nodeAPIDownAfter = int(verifInt("apiDownAfter", 1, 6))
 	}
 	s := w.snap(g)
 	mark := len(w.J.Calls)
@@ -104,7 +109,7 @@ func VerifHarness_C07() {
 			verifAssert("C07.newest-first", !(t.createAge < u.createAge))
 		}
 	}
-	if F == 0 && K == 0 {
+	if F == 0 && K == 0 && verifShape(7) == 0 {
 		verifAssert("C07.untaint-count", verifImplies(scaling, int64(j.untaints) == imin(need, s.tainted)))
 	}
 	verifAssert("C07.untaint-at-most-needed", verifImplies(scaling, int64(j.untaints) <= need))
